@@ -231,9 +231,10 @@ class Stacker(Transformer):
                     if c not in X.dims and set(X[c].dims) & set(feature_dims)
                 ]
                 X = X.drop_vars(aux_coords)
-                X = X.to_stacked_array(
+                X_stacked = X.to_stacked_array(
                     new_dim=feature_name, sample_dims=(self.sample_name,)
                 )
+                X = self._canonical_feature_order(X_stacked, X, feature_dims)
             case _:
                 raise TypeError(f"Invalid data type {type(X)}.")
 
@@ -242,6 +243,35 @@ class Stacker(Transformer):
             X = X.transpose(sample_name, feature_name)
 
         return X
+
+    def _canonical_feature_order(
+        self, stacked: DataArray, X: DataSet, feature_dims: Dims
+    ) -> DataArray:
+        """Order the stacked features of a Dataset independently of its layout.
+
+        ``to_stacked_array`` orders the features by the order in which variables
+        and dimensions happen to appear in the Dataset. Data passed to
+        ``transform`` with another variable or dimension order than the fitted
+        data would therefore be stacked differently. Use the variable order seen
+        during fit and the given order of the feature dimensions instead.
+        """
+        feature_name = self.feature_name
+        index = stacked.indexes[feature_name]
+        variables = list(self.var_dims) if self.var_dims else list(X.data_vars)
+        level_names = ["variable", *feature_dims]
+        if list(index.names) == level_names and list(X.data_vars) == variables:
+            return stacked
+
+        codes = [pd.Index(variables).get_indexer(index.get_level_values("variable"))]
+        for dim in feature_dims:
+            codes.append(X.indexes[dim].get_indexer(index.get_level_values(dim)))
+        order = np.lexsort(codes[::-1])
+        new_index = index[order].reorder_levels(level_names)
+        stacked = stacked.isel({feature_name: order})
+        stacked = stacked.drop_vars([feature_name, *index.names])
+        return stacked.assign_coords(
+            xr.Coordinates.from_pandas_multiindex(new_index, feature_name)
+        )
 
     def _unstack_to_dataarray(self, X: DataArray) -> DataArray:
         """Unstack 2D DataArray to its original dimensions.
